@@ -136,7 +136,14 @@ pub fn long_decimal(x: f32) -> String {
 }
 
 fn name_strategy() -> BoxedStrategy<String> {
-    prop_oneof![3 => "chr[0-9]{1,2}", 2 => "[A-Za-z0-9_.]{1,10}", 1 => "chrUn_[A-Z]{2}[0-9]{3}v1"].boxed()
+    prop_oneof![
+        6 => "chr[0-9]{1,2}",
+        4 => "[A-Za-z0-9_.]{1,10}",
+        2 => "chrUn_[A-Z]{2}[0-9]{3}v1",
+        // names sharing a prefix with words some tools treat specially in the first column
+        1 => proptest::sample::select(vec!["track7", "browser1", "trackhub", "browserX", "variableStep1", "fixedStep_2", "chrom", "chr", "NaN", "nan", "inf", "e5", "0", "1e3", "0x10", "-", "+"]).prop_map(|s| s.to_string()),
+    ]
+    .boxed()
 }
 
 pub fn canonical_bw(max_chroms: usize, max_items: usize) -> BoxedStrategy<BwInput> {
